@@ -45,6 +45,12 @@ def gen_cases(ctx):
                                          "reference": [N * 600 + 7200, (N // 2) * 600 + 300, None, -86400, 0][ci % 5],
                                          "offgrid": ci % 2 == 1},
                     "seed": rng.randrange(10**6)})
+    # fixed: restarts at steps 2, 4, 6 of 8; the middle forcing frame a quarter step after step 4, so that the run restarted
+    # at step 6 has a frame 1.75 steps BEFORE its start (a negative, fractional frame step) and the one restarted at
+    # step 4 has it a quarter step after its start
+    out.append({"k": "impl", "sc": {"N": 8, "p": 1, "numrec": 2, "dt": 600, "adv": "RK2", "lifetime": None,
+                                     "rows": [[0, 3.0, 3.0, 20.0], [1200, 4.0, 3.5, 70.0]], "continuous": None, "u": 0.3,
+                                     "reference": 0, "offgrid": True}, "seed": 8})
     # whole set-ups (Model/Setup.v, SetupWarm.v): irregular frames in several files, forward and reversed clocks,
     # multiplicities; the split run and a restart from every file boundary against the model's restarted run
     for q in range(6 if ctx.quick else 60):
